@@ -5,6 +5,7 @@
 #include <stdio.h>
 #include <stdlib.h>
 #include <stdint.h>
+#include <string.h>
 #include <string>
 #include <vector>
 using namespace asl;
@@ -50,5 +51,33 @@ int main(int argc, char** argv)
 			if (memcmp(&got[0], want, 20)) { printf("REPRODUCED SHA1::hash differs from FIPS 180-4 for a %d-byte message\n", L); return 1; } }
 		printf("OK\n"); return 0; }
 	if (cmd == "url") { std::string t = unhex(argv[2]); String s(t.c_str()); for (int comp = 0; comp < 2; comp++) { String e = Url::encode(s, comp != 0), d = Url::decode(e); if (d != s) { printf("REPRODUCED Url::decode(Url::encode(s)) != s (component=%d)\n", comp); return 1; } } printf("OK\n"); return 0; }
+	if (cmd == "battery") {
+		// Base64: every length 0..400, RFC text, decode back, decode with whitespace interleaved; hex both ways
+		for (int n = 0; n <= 400; n++) { std::string d(n, 0); for (int i = 0; i < n; i++) d[i] = char(i * 37 + 11 + n);
+			byte* exact = (byte*)malloc(n ? n : 1); memcpy(exact, d.data(), n);      /* exact-size heap copy: ASan sees a read of data[n] */
+			String e = encodeBase64(exact, n); free(exact); std::string want = b64ref(d);
+			if (std::string(*e, e.length()) != want) { printf("REPRODUCED encodeBase64 of %d bytes differs from RFC 4648\n", n); return 1; }
+			ByteArray back = decodeBase64(e); if (back.length() != n || (n && memcmp(back.data(), d.data(), n))) { printf("REPRODUCED decodeBase64(encodeBase64(x)) != x for %d bytes\n", n); return 1; }
+			const char ws[4] = { ' ', '\t', '\r', '\n' }; std::string t; for (size_t i = 0; i < want.size(); i++) { t += want[i]; if (i % 3 == 1) t += ws[(i / 3) % 4]; if (i % 76 == 75) t += "\r\n"; }
+			ByteArray b2 = decodeBase64(t.c_str()); if (b2.length() != n || (n && memcmp(b2.data(), d.data(), n))) { printf("REPRODUCED decodeBase64 of text interleaved with whitespace differs for %d bytes (%d decoded)\n", n, b2.length()); return 1; }
+			String h = encodeHex((const byte*)d.data(), n); if (h.length() != 2 * n) { printf("REPRODUCED encodeHex length\n"); return 1; }
+			for (int i = 0; i < n; i++) { char x[3]; snprintf(x, 3, "%02x", (unsigned char)d[i]); if (h[2 * i] != x[0] || h[2 * i + 1] != x[1]) { printf("REPRODUCED encodeHex is not lowercase hex of the bytes (%d bytes)\n", n); return 1; } }
+			ByteArray hb = decodeHex(h); if (hb.length() != n || (n && memcmp(hb.data(), d.data(), n))) { printf("REPRODUCED decodeHex(encodeHex(x)) != x for %d bytes\n", n); return 1; } }
+		// malformed input: every string over { A = - space junk } up to length 6, odd-length hex
+		{ const char alpha[] = { 'A', '=', '-', ' ', '\n', '/' }; for (int len = 0; len <= 6; len++) { int total = 1; for (int i = 0; i < len; i++) total *= 6;
+			for (int code = 0; code < total; code++) { char t[8]; int c = code; for (int i = 0; i < len; i++, c /= 6) t[i] = alpha[c % 6]; t[len] = 0; ByteArray a = decodeBase64(t); if (a.length() < 0 || a.length() > len) { printf("REPRODUCED decodeBase64(\"%s\") returned length %d\n", t, a.length()); return 1; } } }
+		  for (int len = 0; len <= 41; len++) { std::string t(len, 'a'); for (int i = 0; i < len; i++) t[i] = "0123456789abcdefXYZ"[i % 19]; ByteArray a = decodeHex(String(t.c_str())); if (a.length() != len / 2) { printf("REPRODUCED decodeHex of %d characters returned %d bytes\n", len, a.length()); return 1; } } }
+		// percent-encoding: every byte alone and inside text, both modes; query dictionaries with reserved characters
+		for (int c = 1; c < 256; c++) for (int comp = 0; comp < 2; comp++) { String s1; s1 << (char)c; String s2; s2 << "a b" << (char)c << "z/?&=+%41";
+			if (Url::decode(Url::encode(s1, comp != 0)) != s1 || Url::decode(Url::encode(s2, comp != 0)) != s2) { printf("REPRODUCED Url::decode(Url::encode(s)) != s for byte 0x%02x (component=%d)\n", c, comp); return 1; } }
+		{ Dic<> d; d["plain"] = "value"; d["a&b"] = "c=d"; d["sp ace"] = "1 + 1 = 2"; d["pct%"] = "%26%3D%2B"; d["u\xC3\xA9"] = "\xE2\x82\xAC" "5"; d["e"] = "";
+		  Dic<> back = Url::parseQuery(Url::params(d)); if (back.length() != d.length()) { printf("REPRODUCED parseQuery(params(d)) has %d entries, d has %d\n", back.length(), d.length()); return 1; }
+		  foreach2(String& k, String& v, d) if (!back.has(k) || back[k] != v) { printf("REPRODUCED parseQuery(params(d)): key '%s' -> '%s', expected '%s'\n", *k, back.has(k) ? *back[k] : "(missing)", *v); return 1; } }
+		// SHA-1: every length 0..260 (all padding cases) and a few larger ones, one-shot (update() is private)
+		for (int L = 0; L <= 260 || L == 1000 || L == 4096 + 63; L = L < 260 ? L + 1 : L == 260 ? 1000 : L == 1000 ? 4096 + 63 : 1 << 30) { std::vector<unsigned char> m(L); for (int i = 0; i < L; i++) m[i] = (unsigned char)(i * 131 + 7);
+			unsigned char want[20]; sha1ref(m, want); SHA1::Hash got = SHA1::hash(L ? m.data() : (const unsigned char*)"", L); if (memcmp(&got[0], want, 20)) { printf("REPRODUCED SHA1::hash differs from FIPS 180-4 for a %d-byte message\n", L); return 1; }
+			if (L >= 1 << 20) break; }
+		printf("OK\n"); return 0;
+	}
 	return 2;
 }
